@@ -12,13 +12,13 @@
      - the one-tag dot product (special case, kept).
      - NESTING as the CWL translator builds it: dot( dot(S) | cartesian_d(S) , Q... ), by composing the inner
        specification with the broadcast theorem (re-proved for schema elements in Comb/GBcast.v);
-   NOT PROVED: broadcast with several independently scattered ports at the same combinator / several levels (per-port
-   antichains in general), trees of depth > 2.
+     - BROADCAST with several scattered ports on one flat dot product (one shallow tag, one level below it);
+   NOT PROVED: several tag levels at one combinator (per-port antichains in general), trees of depth > 2.
    These are decided case by case by the check's oracle and tied to the model by the correspondence.
    The three [_refuted] theorems are the input classes where the faithful model (and the code) break the text. *)
 From Coq Require Import List Ascii Bool NArith Arith Permutation.
 From SF Require Import Base.Str Tags.Model Comb.Model Comb.Proofs Comb.Flat Comb.Cart Comb.Bcast Comb.Nested.
-From SF Require Comb.GBcast.
+From SF Require Comb.GBcast Comb.GB2.
 Import ListNotations.
 Local Open Scope string_scope. Local Open Scope list_scope.
 
@@ -82,6 +82,20 @@ Theorem C02_dot_broadcast_partial : forall items r dp (arr : list arv),
   wfb items r dp arr -> run (c1 items) init_state arr = (outs_b items r [] arr, None).
 Proof. exact dot_broadcast. Qed.
 
+(* BROADCAST with SEVERAL scattered ports on one flat dot product: the ports DP (at least one) deliver tokens tagged with
+   strict descendants of r, pairwise unrelated or equal, each port each tag at most once; every other port at most
+   one token tagged r ([GB2.wfb2]; this is the domain on which the result does not depend on the order, cf.
+   C02_dot_ancestor_pair_refuted outside it).  For EVERY arrival order the run never raises and equals [GB2.outs_b2]:
+   the combination of a key k is emitted exactly at the arrival that completes {tokens tagged k} U {tokens tagged r}
+   (one per port) and holds exactly those tokens.  Here the code re-copies the parent tokens into key k at every
+   arrival of a token tagged k, so the parent deques hold an arrival-dependent number of copies; the proof carries
+   those counts as an existential invariant (every live deque holds >= 1 copies of one token, scattered ones exactly 1,
+   a fired key has a zero) -- the emitted combinations do not depend on them. *)
+Theorem C02_dot_broadcast_multi_partial : forall items r DP (arr : list arv),
+  GB2.wfb2 items r DP (map GB2.tokarr arr) ->
+  run (c1 items) init_state arr = (GB2.outs_b2 items r [] arr, None).
+Proof. exact GB2.dot_broadcast2. Qed.
+
 (* NESTED, the trees the CWL translator builds for a step with several scatter inputs S and non-scattered inputs Q
    (translator._create_residual_combinator): a dot product whose first item is the scatter combinator over S -- a dot
    product, or a cartesian product of depth d -- and whose other items are the ports Q.
@@ -108,6 +122,15 @@ Theorem C02_nested_cartesian_partial : forall S d (Hd : d <> 0) cname Q r (arr :
   run (tree S cname Q (KCart d)) init_state arr =
   (nouts S cname Q r (fun ai x => map mk_out (emitted S d ai x)) [] [] arr, None).
 Proof. exact nested_dot_cart. Qed.
+
+(* ... and for the inner DOT product the hypothesis on the derived list follows from primitive conditions [PH]: the names
+   cname :: Q are distinct, S is not empty, every arrival outside S is on a port of Q and tagged r, each port of Q
+   delivers at most once, the arrivals on S are well-formed for the flat dot product, and their tags are strict
+   descendants of r of more than one character (true of every tag "r.i"). *)
+Theorem C02_nested_dot_partial : forall S cname Q r (arr : list arv),
+  PH S cname Q r arr ->
+  run (tree S cname Q KDot) init_state arr = (nouts S cname Q r (emission S) [] [] arr, None).
+Proof. exact nested_dot_dot_primitive. Qed.
 
 (* PARTIAL (one tag only): a dot product over the ports [items], one token per port, all tagged g, arriving in ANY
    order: nothing is emitted before the last arrival, which emits exactly one combination holding every port's
@@ -246,6 +269,41 @@ Proof.
     + simpl. intros x y [<-|[<-|[<-|[]]]] [<-|[<-|[<-|[]]]] Px Py N; try discriminate Px; try discriminate Py;
         try (exfalso; apply N; reflexivity); vm_compute; reflexivity.
 Qed.
+(* two scattered ports b, c and a parent a: hypotheses of the multi-port broadcast theorem and its specification *)
+Example C02_broadcast_multi_example :
+  let arr : list arv := [("b", (1%N, "0.9")); ("a", (0%N, "0")); ("c", (2%N, "0.10")); ("c", (3%N, "0.9"));
+                         ("b", (4%N, "0.10"))] in
+  GB2.wfb2 ["a"; "b"; "c"] "0" ["b"; "c"] (map GB2.tokarr arr) /\
+  GB2.outs_b2 ["a"; "b"; "c"] "0" [] arr =
+    [[]; []; []; [[("b", (1%N, "0.9")); ("a", (0%N, "0.9")); ("c", (3%N, "0.9"))]];
+     [[("a", (0%N, "0.10")); ("c", (2%N, "0.10")); ("b", (4%N, "0.10"))]]] /\
+  run (c1 ["a"; "b"; "c"]) init_state arr = (GB2.outs_b2 ["a"; "b"; "c"] "0" [] arr, None).
+Proof.
+  split; [|vm_compute; split; reflexivity].
+  split; [|split; [|split; [|split; [|split; [|split]]]]].
+  - repeat (apply NoDup_cons; [simpl; intuition congruence|]). apply NoDup_nil.
+  - discriminate.
+  - intros q [<-|[<-|[]]]; simpl; auto.
+  - simpl. intros x [<-|[<-|[<-|[<-|[<-|[]]]]]]; simpl; auto.
+  - vm_compute. repeat (apply NoDup_cons; [simpl; intuition congruence|]). apply NoDup_nil.
+  - simpl. intros x [<-|[<-|[<-|[<-|[<-|[]]]]]]; vm_compute; repeat split; congruence.
+  - simpl. intros x y [<-|[<-|[<-|[<-|[<-|[]]]]]] [<-|[<-|[<-|[<-|[<-|[]]]]]] Px Py N; try discriminate Px;
+      try discriminate Py; try (exfalso; apply N; reflexivity); vm_compute; reflexivity.
+Qed.
+(* ... and so do the primitive hypotheses of C02_nested_dot_partial *)
+Example C02_nested_primitive_hyp_example :
+  let arr : list arv := [("b", (1%N, "0.9")); ("c", (2%N, "0.9")); ("b", (3%N, "0.10")); ("a", (0%N, "0"));
+                         ("c", (4%N, "0.10"))] in
+  PH ["b"; "c"] "in1" ["a"] "0" arr.
+Proof.
+  split; [|split; [|split; [|split; [|split]]]].
+  - repeat (apply NoDup_cons; [simpl; intuition congruence|]). apply NoDup_nil.
+  - discriminate.
+  - simpl. intros x [<-|[<-|[<-|[<-|[<-|[]]]]]]; vm_compute; intros; try discriminate; auto.
+  - vm_compute. repeat (apply NoDup_cons; [simpl; intuition congruence|]). apply NoDup_nil.
+  - exact (proj1 (proj2 C02_nested_hyp_example)).
+  - simpl. intros x [<-|[<-|[<-|[<-|[<-|[]]]]]]; vm_compute; intros; try discriminate; repeat split; try congruence; auto.
+Qed.
 (* broadcast of a parent tag and a cartesian product, as the model computes them (not covered by a theorem) *)
 Example C02_broadcast_example :
   concat (fst (run (mkouter KDot [IPort "a"; IPort "b"]) init_state
@@ -264,8 +322,10 @@ Print Assumptions C02_cartesian_partial.
 Print Assumptions C02_uniform_depth_groups_unrelated.
 Print Assumptions C02_order_independent_cartesian_partial.
 Print Assumptions C02_dot_broadcast_partial.
+Print Assumptions C02_dot_broadcast_multi_partial.
 Print Assumptions C02_nested_partial.
 Print Assumptions C02_nested_cartesian_partial.
+Print Assumptions C02_nested_dot_partial.
 Print Assumptions C02_dot_one_tag_partial.
 Print Assumptions C02_order_independent_one_tag_partial.
 Print Assumptions C02_dot_ancestor_pair_refuted.
